@@ -147,11 +147,23 @@ static void look_own(int i)
 	if (own[i].traits) VF_CHECK(t == own[i].traits, "model:libtypes:own-type-changed", "harness type 0x%x: descriptor pointer changed", own[i].id);
 }
 
+/* number of resolving ids per kind: what a call added to the registry */
+static void count_entries(int n[4])
+{
+	int id;
+	n[KBasic] = n[KGeneric] = n[KIface] = n[KMeta] = 0;
+	for (id = MPT_ENUM(_TypeDynamicBase); id <= MPT_ENUM(_TypeDynamicMax); id++) if (mpt_type_traits((MPT_TYPE(type)) id)) n[KBasic]++;
+	for (id = MPT_ENUM(_TypeValueAdd); id <= MPT_ENUM(_TypeValueMax); id++) if (mpt_type_traits((MPT_TYPE(type)) id)) n[KGeneric]++;
+	for (id = MPT_ENUM(_TypeInterfaceBase); id <= MPT_ENUM(_TypeInterfaceMax); id++) if (mpt_interface_traits((MPT_TYPE(type)) id)) n[KIface]++;
+	for (id = MPT_ENUM(_TypeMetaPtrBase); id <= MPT_ENUM(_TypeMetaPtrMax); id++) if (mpt_metatype_traits((MPT_TYPE(type)) id)) n[KMeta]++;
+}
 static int call_lib(int k)
 {
+	int before[4], after[4], other = 0, own_delta, c;
 	libtype *l = &lib[k];
 	const MPT_STRUCT(named_traits) *nt = 0;
 	int id, lo, hi;
+	count_entries(before);
 	vf_at(l->api);
 	switch (k) {
 	case 0: id = mpt_color_typeid(); break;
@@ -166,6 +178,14 @@ static int call_lib(int k)
 	case 9: nt = mpt_input_type_traits(); id = nt ? (int) nt->type : -1; break;
 	default: nt = mpt_client_type_traits(); id = nt ? (int) nt->type : -1; break;
 	}
+	count_entries(after);
+	for (c = 0; c < 4; c++) if (c != l->kind) other += after[c] - before[c];
+	own_delta = after[l->kind] - before[l->kind];
+	/* one library type stands for one id: only the first successful call adds one entry */
+	VF_CHECK(!other && own_delta == ((id > 0 && !l->id) ? 1 : 0), "model:libtypes:extra-registration",
+	         "%s() -> %d (id before: 0x%x) changed the number of registry entries: basic %+d, generic %+d, interface %+d, metatype %+d",
+	         l->api, id, l->id, after[KBasic] - before[KBasic], after[KGeneric] - before[KGeneric], after[KIface] - before[KIface], after[KMeta] - before[KMeta]);
+	vf_count("monitor:registry-growth-compared", 1);
 	vf_count(l->api, 1);
 	l->calls++;
 	vf_fp_u64(0x1000 + (uint64_t) k);
@@ -294,6 +314,24 @@ void vf_case(uint64_t idx, vf_rng *r)
 	vf_fp_u64(idx);
 	nops = vf_range(r, 30, 160);
 	fill = (idx % 12 == 6);   /* fill the generic range with harness types at some point: library registrations are refused then */
+	/* names the library wants for itself ("mpt.rawdata" interface, "mpt.input" / "mpt.client" metatypes) are taken by
+	 * the application first: the library's own registration is refused then; it must not invent an id, nor use the foreign one */
+	if (idx % 12 == 5 || idx % 12 == 4) {
+		for (k = 8; k < NLIB; k++) {
+			const MPT_STRUCT(named_traits) *nt;
+			if (idx % 12 == 4 && !vf_chance(r, 1, 2)) continue;
+			if (nown >= MAXOWN) break;
+			vf_at(lib[k].kind == KIface ? "mpt_type_interface_add" : "mpt_type_metatype_add");
+			nt = lib[k].kind == KIface ? mpt_type_interface_add(lib[k].name) : mpt_type_metatype_add(lib[k].name);
+			if (!nt) continue;
+			check_unique("harness registration", (int) nt->type, -1);
+			own[nown].id = (int) nt->type; own[nown].kind = lib[k].kind; own[nown].size = sizeof(void *); own[nown].traits = 0;
+			nown++;
+			vf_count("library-name-taken-first", 1);
+			vf_fp_u64(0xa000 + (uint64_t) k);
+		}
+		for (i = 0; i < 3 * NLIB; i++) { k = (int) vf_below(r, NLIB); call_lib(k); look_lib(k); }
+	}
 	/* ranges exhausted by the application before the library registers anything of its own:
 	 * every library registration is then an error or a fresh, unique id of the right size */
 	if (idx % 12 >= 7) {
